@@ -206,7 +206,12 @@ func newDetectionStateFromMonotonicNumbers(monotonicNumbers []*info.PageInfo, is
 		// If feasible, insert current document URL as first page.
 		// Otherwise, we enhance the heuristic: if current document URL fits the paging pattern
 		// of the potential pagination URLs, consider it as first page too.
-		docURL := strings.TrimSuffix(parsedDocURL.String(), "/")
+		// Only a slash that ends the path is dropped, not one that ends the query
+		// ("?back=/news/") or the fragment.
+		trimmedDocURL := *parsedDocURL
+		trimmedDocURL.Path = strings.TrimSuffix(trimmedDocURL.Path, "/")
+		trimmedDocURL.RawPath = strings.TrimSuffix(trimmedDocURL.RawPath, "/")
+		docURL := trimmedDocURL.String()
 		if pageParamInfo.CanInsertFirstPage(docURL, monotonicNumbers) {
 			pageParamInfo.InsertFirstPage(docURL)
 		} else if candidate.pagePattern.IsPagingURL(docURL) {
